@@ -61,7 +61,7 @@ pub fn shards(tier: &str) -> Vec<String> {
     }
     v.push("zbdd:reorder:t1".into());
     v.push("zbdd:add_vars:t1".into());
-    for op in ["add", "mul", "terminals_add", "terminals_constant", "terminals_var"] {
+    for op in ["add", "mul", "terminals_add", "terminals_constant", "terminals_var", "terminals_reuse"] {
         v.push(format!("mtbdd:{op}:t1"));
     }
     let _ = tier;
@@ -574,6 +574,9 @@ fn mtbdd_script(ctx: &mut Ctx, op: &str) {
     if op == "terminals_var" {
         return mtbdd_var_script(ctx);
     }
+    if op == "terminals_reuse" {
+        return mtbdd_reuse_script(ctx);
+    }
     ctx.group(&format!("mtbdd {op}"), |ctx| {
         let ta: Vec<i64> = vec![0, 1, 2, 3, 4, 5, 6, 7];
         let tb: Vec<i64> = vec![7, 5, 3, 1, 0, 2, 4, 6];
@@ -738,6 +741,96 @@ fn mtbdd_var_script(ctx: &mut Ctx) {
                         attrs(&[("kind", "mtbdd"), ("op", "terminals_var"), ("class", &class)]),
                         json!({"kind": "mtbdd", "op": "var", "terminal_capacity": cap, "constants_alive": values}),
                         &format!("mtbdd var(1) with terminal capacity {cap} and the constants {values:?} alive: {msg}"),
+                    );
+                }
+            }
+        }
+    });
+}
+
+/// A constant result dies, new constants are requested until the terminal table reports OutOfMemory, then the
+/// operation is repeated: every terminal capacity 2..=8 x 0..=3 extra constants kept alive. Whatever failed, the
+/// repeated operation returns the right constant (or OutOfMemory), and after drop + gc it succeeds.
+fn mtbdd_reuse_script(ctx: &mut Ctx) {
+    type F = MTBDDFunction<I64>;
+    ctx.group("mtbdd: constant result dies, terminal table fills up, same operation again", |ctx| {
+        for cap in 2..=8usize {
+            for keep in 0..=3usize {
+                ctx.count("evaluations", 1);
+                crate::proto::throttle_threads();
+                let mref = oxidd::mtbdd::new_manager::<I64>(64, cap, 64, 1);
+                mref.with_manager_exclusive(|m| {
+                    m.add_vars(1);
+                });
+                let mut bad: Vec<(String, String)> = vec![];
+                let f = HMtbdd::build(&mref, &[1, 2]);
+                let g = HMtbdd::build(&mref, &[2, 1]);
+                let (Ok(f), Ok(g)) = (f, g) else {
+                    ctx.outcome("oom_in_operand_construction");
+                    continue;
+                };
+                let kept: Vec<F> = (0..keep).filter_map(|i| mref.with_manager_shared(|m| F::constant(m, I64::Num(100 + i as i64)).ok())).collect();
+                let check3 = |r: &oxidd_core::util::AllocResult<F>, when: &str, bad: &mut Vec<(String, String)>| match r {
+                    Ok(h) => {
+                        if HMtbdd::table(h).as_ref() != Ok(&vec![3, 3]) {
+                            bad.push(("wrong_result".into(), format!("{when}: f + g = {:?}, expected the constant 3", HMtbdd::table(h))));
+                        }
+                    }
+                    Err(_) => {}
+                };
+                let s1 = f.add(&g);
+                check3(&s1, "first computation", &mut bad);
+                let first_ok = s1.is_ok();
+                drop(s1);
+                // fresh constants until the table is full (none of them is kept)
+                let mut ooms = 0;
+                for k in 0..10i64 {
+                    match mref.with_manager_shared(|m| F::constant(m, I64::Num(5 + k))) {
+                        Ok(c) => {
+                            if HMtbdd::table(&c).as_ref() != Ok(&vec![5 + k, 5 + k]) {
+                                bad.push(("wrong_result".into(), format!("constant({}) reads {:?}", 5 + k, HMtbdd::table(&c))));
+                            }
+                        }
+                        Err(_) => ooms += 1,
+                    }
+                }
+                if ooms > 0 {
+                    ctx.count("nontrivial", 1);
+                }
+                ctx.outcome(&format!("constants_failed={}", ooms.min(10)));
+                let s2 = f.add(&g);
+                check3(&s2, "after the terminal table filled up", &mut bad);
+                drop(s2);
+                mref.with_manager_shared(|m| m.gc());
+                let s3 = f.add(&g);
+                check3(&s3, "after gc", &mut bad);
+                if first_ok && s3.is_err() {
+                    bad.push(("retry_fails".into(), "f + g fails after drop + gc although it succeeded on the same manager before".into()));
+                }
+                {
+                    let mut refs: Vec<&F> = vec![&f, &g];
+                    refs.extend(kept.iter());
+                    if let Ok(h) = &s3 {
+                        refs.push(h);
+                    }
+                    let info = HMtbdd::audit(&mref, &refs, true);
+                    for e in info.errors.iter().take(2) {
+                        bad.push(("audit".into(), e.clone()));
+                    }
+                }
+                drop((s3, f, g, kept));
+                let (left, leftt) = mref.with_manager_shared(|m| {
+                    m.gc();
+                    (m.num_inner_nodes(), m.num_terminals())
+                });
+                if left != 0 || leftt != 0 {
+                    bad.push(("leak".into(), format!("{left} inner nodes and {leftt} terminals remain after dropping everything and gc")));
+                }
+                for (class, msg) in bad {
+                    ctx.viol(
+                        attrs(&[("kind", "mtbdd"), ("op", "terminals_reuse"), ("class", &class)]),
+                        json!({"kind": "mtbdd", "op": "f + g, constants, f + g", "terminal_capacity": cap, "constants_kept_alive": keep}),
+                        &format!("mtbdd f + g (f = x0 + 1, g = 2 - x0) with terminal capacity {cap} and {keep} other constants alive: {msg}"),
                     );
                 }
             }
